@@ -33,7 +33,7 @@ def isRet : Ev → Bool | .ret => true | _ => false
 
 /-- (enter?, index) of a hook event of the given kind -/
 def startTag : Ev → Option (Bool × Nat)
-  | .startIn i _ _ => some (true, i) | .startOut i => some (false, i) | _ => none
+  | .startIn i _ _ _ => some (true, i) | .startOut i => some (false, i) | _ => none
 def shutTag : Ev → Option (Bool × Nat)
   | .shutIn i _ _ _ => some (true, i) | .shutOut i => some (false, i) | _ => none
 def stopTag : Ev → Option (Bool × Nat)
@@ -78,15 +78,15 @@ def runCount : List HB → Nat
 
 /-- "before the listener opens": no OnStart hook sees the application serving -/
 def startProbeOk : Ev → Bool
-  | .startIn _ app _ => !app
+  | .startIn _ app _ _ => !app
   | _ => true
 
 /-- "OnReady runs only once the server accepts connections" (and only registered hooks, at most once) -/
 def readyProbeOk (n : Nat) : Ev → Bool
-  | .ready i app _ => app && i < n
+  | .ready i app _ _ => app && i < n
   | _ => true
 
-def readyIdx : Ev → Option Nat | .ready i _ _ => some i | _ => none
+def readyIdx : Ev → Option Nat | .ready i _ _ _ => some i | _ => none
 
 def nodupNat : List Nat → Bool
   | [] => true
